@@ -22,11 +22,16 @@ type input struct {
 	b       []byte
 	network bool
 	origin  string // how it was produced, e.g. "prefix", "len=-1@listlen"
+	prior   []byte // a well-formed document the "typed-reused" entry decodes into the receiver first
 }
 
 func (in *input) wit(entry string) func() any {
 	return func() any {
-		return map[string]any{"bytes": vm.Hex(in.b), "network": in.network, "origin": in.origin, "entry": entry}
+		m := map[string]any{"bytes": vm.Hex(in.b), "network": in.network, "origin": in.origin, "entry": entry}
+		if entry == "typed-reused" {
+			m["receiver_previously_decoded"] = vm.Hex(in.prior)
+		}
+		return m
 	}
 }
 
@@ -140,6 +145,17 @@ var entries = []entry{
 		_, err := d.Decode(p.Interface())
 		return err, 0
 	}},
+	{"typed-reused", func(in *input, t reflect.Type) (error, int) {
+		// a receiver that already holds a decoded document (a program reading documents in a loop)
+		p := reflect.New(t)
+		if in.prior != nil {
+			d := nbt.NewDecoder(bytes.NewReader(in.prior))
+			d.NetworkFormat(in.network)
+			_, _ = d.Decode(p.Interface())
+		}
+		_, err := dec(in).Decode(p.Interface())
+		return err, 0
+	}},
 	{"raw", func(in *input, _ reflect.Type) (error, int) {
 		var m nbt.RawMessage
 		_, err := dec(in).Decode(&m)
@@ -248,7 +264,7 @@ func run(c *vm.Ctx) {
 		check(c, &input{b: doc, network: network, origin: "valid"}, typed)
 		// every strict prefix
 		for k := 0; k < len(doc); k++ {
-			check(c, &input{b: doc[:k], network: network, origin: "prefix"}, typed)
+			check(c, &input{b: doc[:k], network: network, origin: "prefix", prior: doc}, typed)
 			c.Cover("mut.prefix")
 		}
 		// every field: mutation table
@@ -257,7 +273,7 @@ func run(c *vm.Ctx) {
 				if strings.HasPrefix(m.Name, "len=1048576") && i%8 != 0 {
 					continue // 2^20 declared lengths cost a 16 MiB allocation each: on every 8th document only
 				}
-				check(c, &input{b: m.Bytes, network: network, origin: m.Name}, typed)
+				check(c, &input{b: m.Bytes, network: network, origin: m.Name, prior: doc}, typed)
 				c.Cover("mut." + m.Name)
 			}
 		}
@@ -265,8 +281,27 @@ func run(c *vm.Ctx) {
 		for k := 0; k < 64; k++ {
 			b := append([]byte{}, doc...)
 			b[r.Intn(len(b))] ^= 1 << uint(r.Intn(8))
-			check(c, &input{b: b, network: network, origin: "bitflip"}, typed)
+			check(c, &input{b: b, network: network, origin: "bitflip", prior: doc}, typed)
 			c.Cover("mut.bitflip")
+		}
+		// a same-shaped document with shorter arrays/lists/strings, decoded into a receiver holding the first;
+		// and, for compounds, one document repeating every name with the shorter value (names are not required
+		// to be unique by the wire format, so a decoder must not fall over on them)
+		small := refnbt.Encode(nbtgen.Shrink(r, tree), name, network)
+		check(c, &input{b: small, network: network, origin: "shrunk", prior: doc}, typed)
+		check(c, &input{b: doc, network: network, origin: "regrown", prior: small}, typed)
+		c.Cover("mut.shrunk")
+		if tree.Tag == refnbt.Compound {
+			hdr := 1
+			if !network {
+				hdr = 3 + len(name)
+			}
+			dup := append(append([]byte{}, doc[:len(doc)-1]...), small[hdr:]...)
+			check(c, &input{b: dup, network: network, origin: "repeated-names", prior: doc}, typed)
+			for k := len(doc) - 1; k < len(dup); k += 1 + (len(dup)-len(doc))/16 {
+				check(c, &input{b: dup[:k], network: network, origin: "repeated-names-prefix", prior: doc}, typed)
+			}
+			c.Cover("mut.repeated-names")
 		}
 		// wrong format flag
 		check(c, &input{b: doc, network: !network, origin: "wrong-format-flag"}, typed)
